@@ -39,6 +39,7 @@ class FuncLowerer:
         self.dropped_logs = 0
         self.atomic_site_count = {}
         self.scope_exits = []     # stack of lists of exit-action strings (RAII)
+        self.pending_dtors = []   # destructor calls of temporaries, run at the end of the current full-expression
         self.ret_is_ref = False
         self.is_method = d.get('kind') in ('CXXMethodDecl', 'CXXConstructorDecl', 'CXXDestructorDecl', 'CXXConversionDecl') \
             and not is_static_method(unit, d)
@@ -470,14 +471,14 @@ class FuncLowerer:
             from cxx2c import PREDEFINED_STRUCTS
             if ty[1] in PREDEFINED_STRUCTS and not args:
                 return '(void)0 /* trivial default ctor of C struct %s */' % ty[1]
-            if ty[1] in PREDEFINED_STRUCTS and len(args) == 1:
+            if (ty[1] in PREDEFINED_STRUCTS or ty[1] in u.cfg.trivial_copy) and len(args) == 1:
                 return '(*(%s) = %s)' % (ptr, self.expr(args[0]))
             if ty[1] in u.cfg.outside_methods:
                 real = [a for a in args if a.get('kind') != 'CXXDefaultArgExpr']
                 cn = sanitize(u.alias(ty[1])) + '_ctor_%d' % len(real)
-                ats = [u.type_of(a) for a in real]
+                ats, avs = self.outside_args(real)
                 self.outside_proto(cn, ('b', 'void'), [('ptr', ty)] + ats, ty[1] + '::' + ty[1].split('::')[-1], e)
-                return '%s(%s)' % (cn, ', '.join([ptr] + [self.expr(a) for a in real]))
+                return '%s(%s)' % (cn, ', '.join([ptr] + avs))
             abort('construct of unknown record %s' % ty[1], e)
         ctor = self.find_ctor(rec, ctor_sig, e)
         if ctor is None:
@@ -574,6 +575,20 @@ class FuncLowerer:
 
     # ------------------------------------------------------------------ statements
     def stmt(self, s, ind):
+        """one statement; destructors of temporaries created by its full-expressions run right after it"""
+        saved = self.pending_dtors
+        self.pending_dtors = []
+        k = s.get('kind')
+        out = self._stmt(s, ind)
+        pend = self.pending_dtors
+        self.pending_dtors = saved
+        if pend:
+            if k in ('IfStmt', 'WhileStmt', 'DoStmt', 'ForStmt', 'SwitchStmt', 'ReturnStmt', 'CompoundStmt', 'CaseStmt', 'DefaultStmt'):
+                abort('temporary with a non-trivial destructor inside a %s head/return value (not in the accepted subset)' % k, s)
+            out = out + ['  ' * ind + x for x in reversed(pend)]
+        return out
+
+    def _stmt(self, s, ind):
         pad = '  ' * ind
         k = s.get('kind')
         u = self.u
@@ -849,7 +864,23 @@ class FuncLowerer:
         return self.expr(e['inner'][0])
 
     def e_CXXBindTemporaryExpr(self, e):
-        return self.expr(e['inner'][0])
+        """a temporary whose destructor is not trivial: materialise it and destroy it at the end of the full-expression"""
+        u = self.u
+        ty = u.type_of(e)
+        inner = e['inner'][0]
+        if ty[0] != 'rec':
+            return self.expr(inner)
+        dt = self.dtor_call(ty[1], '&__TMP__', e)
+        if dt is None:
+            return self.expr(inner)
+        if getattr(self, '_lifetime_extended', False):
+            abort('lifetime-extended temporary with a non-trivial destructor', e)
+        t = self.fresh_tmp(ty)
+        self.pending_dtors.append(dt.replace('&__TMP__', '&' + t) + ';')
+        si = self.strip_wrappers(inner)
+        if si.get('kind') in ('CXXConstructExpr', 'CXXTemporaryObjectExpr'):
+            return '(%s, %s)' % (self.construct_into('&' + t, ty, si), t)
+        return '(%s = %s, %s)' % (t, self.expr(inner), t)
 
     def e_SubstNonTypeTemplateParmExpr(self, e):
         return self.expr(e['inner'][-1])
@@ -1083,10 +1114,20 @@ class FuncLowerer:
                 return x   # std::atomic<T> -> std::__atomic_base<T>: same object
             for step in e.get('path', []):
                 nm = '__base_' + sanitize(norm_name(step['name']).split('::')[-1])
+                if cur[0] == 'rec':
+                    u.need_struct(cur[1])
                 if is_ptr:
                     x = '(&(%s)->%s)' % (x, nm)
                 else:
                     x = '(%s).%s' % (x, nm)
+                drec = u.records.get(cur[1]) if cur[0] == 'rec' else None
+                nxt = None
+                if drec is not None:
+                    for b in drec.get('bases', []):
+                        bt = u.resolve(parse_type(b['type'].get('desugaredQualType') or b['type']['qualType']))
+                        if bt[0] == 'rec' and sanitize(bt[1].split('::')[-1]) == nm[len('__base_'):]:
+                            nxt = bt
+                cur = nxt if nxt is not None else cur
             return x
         if ck == 'BaseToDerived':
             # bases are laid out first; only the first (offset 0) base is accepted
@@ -1217,8 +1258,8 @@ class FuncLowerer:
     def e_CXXConstructExpr(self, e):
         ty = self.u.type_of(e)
         from cxx2c import PREDEFINED_STRUCTS
-        if ty[0] == 'rec' and ty[1] not in self.u.records and ty[1] in PREDEFINED_STRUCTS and len(e.get('inner', [])) == 1:
-            return self.expr(e['inner'][0])     # trivial copy of a plain C struct
+        if ty[0] == 'rec' and ty[1] not in self.u.records and (ty[1] in PREDEFINED_STRUCTS or ty[1] in self.u.cfg.trivial_copy) and len(e.get('inner', [])) == 1:
+            return self.expr(e['inner'][0])     # trivial copy of a plain C struct / a listed trivially copyable outside record
         if ty[0] == 'b' and len(e.get('inner', [])) == 1:
             return self.expr(e['inner'][0])     # copy of a scalar-modelled record
         if ty[0] == 'rec':
@@ -1495,6 +1536,22 @@ class FuncLowerer:
             return self.wrap_ref_result('((void)%s, %s(%s))' % (objp, cn, ', '.join(a)), ret)
         return self.wrap_ref_result('%s(%s)' % (cn, ', '.join([objp] + a)), ret)
 
+    def outside_args(self, args):
+        """argument types/values for a function outside the AST: an lvalue of record type is bound by reference"""
+        u = self.u
+        ats, avs = [], []
+        for a in args:
+            t = u.type_of(a)
+            if t[0] == 'arr':
+                t = ('ptr', t[1])
+            if t[0] == 'rec' and a.get('valueCategory') == 'lvalue':
+                ats.append(('ptr', t))
+                avs.append(self.addr(a))
+            else:
+                ats.append(t)
+                avs.append(self.expr(a))
+        return ats, avs
+
     def outside_proto(self, cn, ret, argtypes, cxxname, where):
         u = self.u
         proto = 'extern ' + u.ctype(ret, '%s(%s)' % (cn, ', '.join(u.ctype(('ptr', t[1]) if t[0] == 'arr' else t) for t in argtypes) or 'void')) + ';'
@@ -1510,22 +1567,12 @@ class FuncLowerer:
         u = self.u
         cn = sanitize(u.alias(objt[1])) + '_' + sanitize(name)
         ret = u.type_of(e)
-        if e.get('valueCategory') == 'lvalue':
-            abort('outside method returning a reference', e)
-        ats = []
-        for a in args:
-            t = u.type_of(a)
-            if t[0] == 'arr':
-                t = ('ptr', t[1])
-            ats.append(t)
-        proto = 'extern ' + u.ctype(ret, '%s(%s)' % (cn, ', '.join([u.ctype(('ptr', objt), 'self')] + [u.ctype(t) for t in ats]))) + ';'
-        if cn in u.extern_protos and u.extern_protos[cn] != proto:
-            abort('outside method %s used with two different signatures' % cn, e)
-        if cn not in u.extern_protos:
-            u.extern_protos[cn] = proto
-            u.report['externs'].append({'cxx': objt[1] + '::' + name, 'c': cn, 'virtual': True, 'type': 'from call site'})
+        is_lv = e.get('valueCategory') == 'lvalue'
+        ats, avs = self.outside_args(args)
+        self.outside_proto(cn, ('ptr', ret) if is_lv else ret, [('ptr', objt)] + ats, objt[1] + '::' + name, e)
         objp = self.expr(obj) if is_arrow else addr_of(self.expr(obj))
-        return '%s(%s)' % (cn, ', '.join([objp] + [self.expr(a) for a in args]))
+        call = '%s(%s)' % (cn, ', '.join([objp] + avs))
+        return '(*%s)' % call if is_lv else call
 
     def e_CXXOperatorCallExpr(self, e):
         u = self.u
@@ -1546,7 +1593,7 @@ class FuncLowerer:
             scalar_model = a0t[0] == 'b' and any(v == a0t[1] for v in u.cfg.scalar_records.values())
             if scalar_model and len(args) == 2 and opsym in ('+', '-', '<', '>', '<=', '>=', '==', '!=', '+=', '-=', '='):
                 return '(%s %s %s)' % (self.expr(args[0]), opsym, self.expr(args[1]))
-            if opsym == '=' and a0t[0] == 'rec' and a0t[1] in PREDEFINED_STRUCTS and len(args) == 2:
+            if opsym == '=' and a0t[0] == 'rec' and (a0t[1] in PREDEFINED_STRUCTS or a0t[1] in u.cfg.trivial_copy) and len(args) == 2:
                 return '(%s = %s)' % (self.expr(args[0]), self.expr(args[1]))
         if decl is None and a0t is not None and a0t[0] == 'rec' and name in u.cfg.outside_methods.get(a0t[1], ()):
             cn = sanitize(u.alias(a0t[1])) + '_' + OPERATOR_NAMES.get(name, 'op_' + sanitize(name[8:]))
